@@ -116,6 +116,8 @@ PROPS = {
              "cover_pkg": "github.com/glowlabs-org/gca-backend/client", "cover_tiers": ["thorough"]},
             {"run": "^TestC11ResyncAfterFailure", "checks": {"quick": 8, "thorough": 60}, "shards": {"quick": 2, "thorough": 8}, "shrink_s": 45},
             {"run": "^TestC11StalledServer", "checks": {"quick": 3, "thorough": 30}, "shards": {"quick": 2, "thorough": 4}, "shrink_s": 45},
+            {"run": "^TestC11OverlappingRounds", "checks": {"quick": 15, "thorough": 150}, "shards": {"quick": 2, "thorough": 8}, "shrink_s": 45},
+            {"run": "^TestC11OverlappingRounds", "race": True, "checks": {"quick": 0, "thorough": 60}, "shards": {"quick": 0, "thorough": 4}, "shrink_s": 45},
         ],
         "assumptions": [
             "a reporting tick or sync round that does not complete within 10 s (it takes about 60 ms) is reported as a wedged client",
@@ -289,7 +291,7 @@ META = {
     },
     "C11": {
         "technique": "stateful property-based testing with fault injection: fake servers with real keys play drawn per-connection outcomes, including validly signed arbitrary replies",
-        "text": "A real client with 1-5 configured servers (dead, banned, or fake servers owning key pairs) runs generated sync rounds, ticks with new readings and restarts. Outcomes per connection cover refusals, resets, short reads, every length class up to 65535 with a valid signature over arbitrary content, wrong signers, stale timestamps, foreign device keys, entries lacking the GCA signature, GCA-signed bans and un-ban attempts. Checked: no panic, mutex free after every round, next tick emits, no server dialled twice per round or while known banned, bans monotone in memory and on disk and across restart, and re-sync within four ticks after a failed round driven by the client's own loop. Exploration only.",
+        "text": "A real client with 1-5 configured servers (dead, banned, or fake servers owning key pairs) runs generated sync rounds, ticks with new readings and restarts. Outcomes per connection cover refusals, resets, short reads, every length class up to 65535 with a valid signature over arbitrary content, wrong signers, stale timestamps, foreign device keys, entries lacking the GCA signature, GCA-signed bans and un-ban attempts. Checked: no panic, mutex free after every round, next tick emits, no server dialled twice per round or while known banned, bans monotone in memory and on disk and across restart, and re-sync within four ticks after a failed round driven by the client's own loop. A further generated check overlaps two sync rounds (the second is started while the first is parked on a silent server, as the client's loop does after a failed round): a ban learnt by one round must bind the other. Exploration only.",
         "note": "'Every control-flow path of the locking code' is attacked dynamically only; paths not driven by the generated outcomes are not judged.",
     },
     "C09": {
